@@ -282,10 +282,30 @@ impl Jsonify for Value {
       Value::List(items) => items.jsonify(),
       Value::Number(value) => value.jsonify(),
       Value::Null(_) => "null".to_string(),
-      Value::String(s) => format!("\"{}\"", s),
+      Value::String(s) => json_string(s),
       _ => format!("jsonify not implemented for: {}", self),
     }
   }
+}
+
+/// Converts a text to `JSON` string: the text is put between quotation marks and the quotation marks,
+/// the reverse solidi and the control characters in the text are escaped.
+pub(crate) fn json_string(text: &str) -> String {
+  let mut json = String::with_capacity(text.len() + 2);
+  json.push('"');
+  for ch in text.chars() {
+    match ch {
+      '"' => json.push_str("\\\""),
+      '\\' => json.push_str("\\\\"),
+      '\n' => json.push_str("\\n"),
+      '\r' => json.push_str("\\r"),
+      '\t' => json.push_str("\\t"),
+      '\u{0}'..='\u{1F}' => json.push_str(&format!("\\u{:04x}", ch as u32)),
+      _ => json.push(ch),
+    }
+  }
+  json.push('"');
+  json
 }
 
 impl Value {
